@@ -37,13 +37,29 @@ class Transformer(ast.NodeTransformer):
         return node
 
     # d[k] = v  (single target, plain subscript)  ->  __sx_setitem__(v, d, k)   (evaluation order value, object, key as in python)
+    @staticmethod
+    def _plain_subscript(t):
+        return isinstance(t, ast.Subscript) and not isinstance(t.slice, ast.Slice) and not (
+            isinstance(t.slice, ast.Tuple) and any(isinstance(e, ast.Slice) for e in t.slice.elts))
+
     def visit_Assign(self, node):
         self.generic_visit(node)
-        if len(node.targets) == 1 and isinstance(node.targets[0], ast.Subscript):
+        if len(node.targets) == 1 and self._plain_subscript(node.targets[0]):
             t = node.targets[0]
-            if not isinstance(t.slice, ast.Slice) and not (isinstance(t.slice, ast.Tuple) and any(isinstance(e, ast.Slice) for e in t.slice.elts)):
-                call = ast.Call(func=ast.Name(id='__sx_setitem__', ctx=ast.Load()), args=[node.value, t.value, t.slice], keywords=[])
-                return ast.copy_location(ast.Expr(value=call), node)
+            call = ast.Call(func=ast.Name(id='__sx_setitem__', ctx=ast.Load()), args=[node.value, t.value, t.slice], keywords=[])
+            return ast.copy_location(ast.Expr(value=call), node)
+        if len(node.targets) > 1 and any(self._plain_subscript(t) for t in node.targets):
+            # a = d[k] = value : the value once, then the targets from left to right (python's order)
+            self._tmp = getattr(self, '_tmp', 0) + 1
+            tmp = '__sx_tmp%d' % self._tmp
+            out = [ast.Assign(targets=[ast.Name(id=tmp, ctx=ast.Store())], value=node.value)]
+            for t in node.targets:
+                if self._plain_subscript(t):
+                    out.append(ast.Expr(value=ast.Call(func=ast.Name(id='__sx_setitem__', ctx=ast.Load()),
+                                                       args=[ast.Name(id=tmp, ctx=ast.Load()), t.value, t.slice], keywords=[])))
+                else:
+                    out.append(ast.Assign(targets=[t], value=ast.Name(id=tmp, ctx=ast.Load())))
+            return [ast.copy_location(x, node) for x in out]
         return node
 
     # x in c / x not in c  ->  __sx_contains__(c, x)
